@@ -74,6 +74,7 @@ type scnStat struct {
 	D        int  `json:"max_deviations"`
 	Execs    int  `json:"executions"`
 	Done     bool `json:"completed"`
+	Diverg   int  `json:"divergences,omitempty"`
 	jobsOpen int
 }
 
@@ -333,6 +334,7 @@ func (c *CheckCtx) explore(items []PlanItem) {
 		}
 		st := c.perScn[j.Scn.Name]
 		st.Execs += r.Execs
+		st.Diverg += r.Divergences
 		if r.Sample != nil && len(c.samples) < 3 {
 			dup := false
 			for _, s := range c.samples {
@@ -525,6 +527,15 @@ func (c *CheckCtx) writeEvidence(pd *propDef, nviol int, vlist []map[string]any)
 			cov["scenarios"] = c.perScn
 		} else {
 			cov["scenario_count"] = len(c.perScn)
+			div := map[string]int{}
+			for k, v := range c.perScn {
+				if v.Diverg > 0 {
+					div[k] = v.Diverg
+				}
+			}
+			if len(div) > 0 {
+				cov["scenarios_with_divergences"] = div
+			}
 		}
 		var ss []any
 		for _, s := range c.samples {
